@@ -87,6 +87,8 @@ def run(ctx):
         g = gen.G(rng)
         items = []
         defs = [g.c_newcommand() for _ in range(rng.randint(1, 2))]
+        while len({d['m']['name'] for d in defs}) < len(defs):      # two definitions of one name: the later one wins (C09's subject)
+            defs = [g.c_newcommand() for _ in range(len(defs))]
         for d in defs:
             if d['m']['nargs'] and rng.random() < 0.7 and d['m']['opt'] is None:
                 d['m']['opt'] = g.names.word()
